@@ -202,6 +202,10 @@ func setupHost(dir string) error {
 		{dir, "clone", "-q", remote, filepath.Join(dir, "peer")},
 		{filepath.Join(dir, "peer"), "config", "user.name", "Peer Dev"},
 		{filepath.Join(dir, "peer"), "config", "user.email", "peer@example.org"},
+		// a tag that exists on the remote only, on a commit the host already has: a fetch that
+		// follows tags would create refs/tags/remote-only on the host
+		{filepath.Join(dir, "peer"), "tag", "remote-only", "origin/main"},
+		{filepath.Join(dir, "peer"), "push", "-q", "origin", "remote-only"},
 	}
 	for _, s := range steps {
 		if _, err := git(s[0], s[1:]...); err != nil {
